@@ -35,6 +35,7 @@ Verdict ==
   ELSE IF T.cxx # CxxTok(D, TRUE) /\ D.cq.v /\ T.cxx = CxxTok([D EXCEPT !.cq.v = FALSE], TRUE)
        THEN <<"REJECT", "top-level volatile dropped from the C++ rendering">>
   ELSE IF T.cxx # CxxTok(D, TRUE) THEN <<"REJECT", "C++ rendering differs from the declaration">>
+  ELSE IF AllNative(D) /\ T.c # CTok(D, TRUE) THEN <<"REJECT", "C rendering is not the C counterpart of the declaration", T.c>>
   ELSE IF ~D.ini.has /\ T.reparse.outcome # "ok" THEN <<"REJECT", "own rendering is not accepted back", T.reparse.outcome>>
   ELSE IF ~D.ini.has /\ FirstDiff(Norm(T.reparse.proj), e) # "" THEN
        <<"REJECT", "re-parsing the rendering changes field", FirstDiff(Norm(T.reparse.proj), e)>>
